@@ -113,6 +113,13 @@ func (s *sharedEntryAttributes) toJsonInternal(onlyNewOrUpdated bool, ietf bool)
 				}
 			}
 			if len(result) == 0 {
+				// a presence container whose own value is to be written shows up also
+				// if none of its (non-default) children has anything to write
+				if s.schema.GetContainer().IsPresence && !s.leafVariants.shouldDelete() {
+					if le := s.leafVariants.GetHighestPrecedence(onlyNewOrUpdated, false); le != nil {
+						return map[string]any{}, nil
+					}
+				}
 				return nil, nil
 			}
 			return result, nil
